@@ -76,8 +76,9 @@ class BuildRefused(Exception):
         self.exc = exc
 
 
-def build_api(el, lib, check=True, order=None):
-    """build the element tree through the public API in document order; raises BuildRefused"""
+def build_api(el, lib, check=True, order=None, kw_attrs=False):
+    """build the element tree through the public API in document order; raises BuildRefused.
+    kw_attrs=True passes the attributes as constructor keywords instead of dot assignments"""
     cls = lib.cls_of_element(el.tag)
     if cls is None:
         raise BuildRefused(el.tag, KeyError(el.tag))
@@ -93,9 +94,23 @@ def build_api(el, lib, check=True, order=None):
     obj = None
     last = None
     vals = py_value(sb, text) if sb else [None]
+    kwargs = {}
+    if kw_attrs:
+        for k, v in el.attrib.items():
+            an = ref.qname_to_prefixed(k)
+            at = table.get(an, (None, None, None))[1]
+            for pv in (py_value(at, v) if at else [v]):
+                try:
+                    cls(**{an.split(':')[-1].replace('-', '_'): pv}) if not sb else None
+                    kwargs[an.split(':')[-1].replace('-', '_')] = pv
+                    break
+                except (TypeError, ValueError):
+                    continue
+                except Exception:  # noqa: BLE001
+                    break
     for pv in vals:
         try:
-            obj = cls(xsd_check=check) if pv is None else cls(pv, xsd_check=check)
+            obj = cls(xsd_check=check, **kwargs) if pv is None else cls(pv, xsd_check=check, **kwargs)
             break
         except (TypeError, ValueError) as e:
             last = e
@@ -105,6 +120,8 @@ def build_api(el, lib, check=True, order=None):
         raise BuildRefused(el.tag + '#text', last)
     for k, v in el.attrib.items():
         an = ref.qname_to_prefixed(k)
+        if an.split(':')[-1].replace('-', '_') in kwargs:
+            continue
         at = table.get(an, (None, None, None))[1]
         cands = py_value(at, v) if at else [v]
         ok = False
@@ -122,7 +139,7 @@ def build_api(el, lib, check=True, order=None):
             raise BuildRefused('%s/@%s' % (el.tag, an), last)
     kids = list(el)
     for c in kids:
-        child = build_api(c, lib, check)
+        child = build_api(c, lib, check, kw_attrs=kw_attrs)
         try:
             obj.add_child(child)
         except Exception as e:  # noqa: BLE001
